@@ -22,7 +22,7 @@ WORKERS = {"quick": 4, "thorough": 16}
 CVAL_VALUES = [-2 ** 31, -1, 0, 1, 129, 257, 300, 1000, 32769, 65536, 2 ** 31 - 1, -129, -32769]
 
 
-def plan(tier, seed):
+def _plan_core(tier, seed):
     fx = [os.path.relpath(f, env.FIXTURE_DIR) for f in env.fixtures()]
     n = 4 if tier == "quick" else 16
     muts = 40 if tier == "quick" else 200
@@ -214,6 +214,11 @@ def count_out_of_range(o):
 
 
 def run_shard(spec_, res):
+    if spec_.get("part") == "soak":
+        from .. import soak
+        for s_ in spec_["soak_seeds"]:
+            soak.run(res, s_, spec_["tier"], PROPERTY, SOAK_KINDS, spec_["steps"])
+        return
     monitors.install(snapshot_fn=_snap)
     rng = random.Random(env.shard_seed(spec_["shard"]))
     tier = spec_["tier"]
@@ -268,3 +273,16 @@ def replay(case, res):
             cycle(res, f.read(), "replay", case)
     else:
         res.inconclusive.append("mutated file too large to embed; re-run the shard")
+
+
+# ------------------------------------------------------------------ soak slice (rvmon.soak): long mixed histories on a pool of objects
+SOAK_KINDS = ['purity']
+
+
+def plan(tier, seed):
+    specs = _plan_core(tier, seed)
+    k = 2 if tier == "quick" else 8
+    for i in range(k):
+        specs.append({"tier": tier, "part": "soak", "soak_seeds": [seed * 100003 + 1000 * i + j for j in range(8 if tier == "quick" else 40)],
+                      "steps": 150 if tier == "quick" else 300, "seed": seed, "shard": 1000 + i})
+    return specs
